@@ -984,8 +984,9 @@ def raised_in_code_under_test(e):
     if not inner:
         return None
     last = frames[-1]
-    if "/verif/psv/harness/" in last.filename:
+    if "/psv/harness/" in last.filename and not isinstance(e, OSError):
         return None                    # raised by harness code called back from psutil: the harness's business
+    # (an OSError raised by a harness stub is a kernel answer the code under test failed to handle: it counts)
     f = inner[-1]
     return f"{f.filename.rsplit('/', 1)[-1]}:{f.lineno}"
 
